@@ -85,24 +85,26 @@ var cliProgs = []cliProg{
 }
 
 type cliCase struct {
-	inputs   []cliInput
-	prog     cliProg
-	nullIn   bool
-	raw      bool
-	join     bool
-	compact  bool
-	slurp    bool
-	rawInput bool
-	raw0     bool
-	decode   string // "", "probe", "json"
-	args     [][2]string
-	argjson  [][2]string
-	rawfile  [][2]string // name, path
-	argErr   string      // "", "unknown-flag", "missing-value", "bad-argjson", "rawfile-missing", "fromfile-missing"
-	ddash    bool
-	combine  bool // combine short flags
-	mono     bool
-	benign   bool
+	inputs        []cliInput
+	prog          cliProg
+	nullIn        bool
+	raw           bool
+	join          bool
+	compact       bool
+	slurp         bool
+	rawInput      bool
+	raw0          bool
+	decode        string // "", "probe", "json"
+	decodeInGroup bool   // -d rides at the end of a combined short flag group
+	decodeEq      bool   // =VALUE form
+	args          [][2]string
+	argjson       [][2]string
+	rawfile       [][2]string // name, path
+	argErr        string      // "", "unknown-flag", "missing-value", "bad-argjson", "rawfile-missing", "fromfile-missing"
+	ddash         bool
+	combine       bool // combine short flags
+	mono          bool
+	benign        bool
 }
 
 func (c *cliCase) argv(inputs []cliInput) []string {
@@ -137,17 +139,41 @@ func (c *cliCase) argv(inputs []cliInput) []string {
 	if c.mono {
 		short("M")
 	}
+	decodeDone := false
 	if len(shorts) > 0 {
-		flags = append(flags, "-"+strings.Join(shorts, ""))
+		g := "-" + strings.Join(shorts, "")
+		if c.decodeInGroup && c.decode != "" {
+			// a value-taking short flag at the end of a group, in both documented forms
+			if c.decodeEq {
+				g += "d=" + c.decode
+				flags = append(flags, g)
+			} else {
+				g += "d"
+				flags = append(flags, g, c.decode)
+			}
+			decodeDone = true
+		} else {
+			flags = append(flags, g)
+		}
 	}
 	if c.raw0 {
 		flags = append(flags, "--raw-output0")
 	}
-	switch c.decode {
-	case "probe":
-		flags = append(flags, "-d", "probe")
-	case "json":
-		flags = append(flags, "--decode=json")
+	if !decodeDone {
+		switch c.decode {
+		case "probe":
+			if c.decodeEq {
+				flags = append(flags, "-d=probe")
+			} else {
+				flags = append(flags, "-d", "probe")
+			}
+		case "json":
+			if c.decodeEq {
+				flags = append(flags, "--decode=json")
+			} else {
+				flags = append(flags, "--decode", "json")
+			}
+		}
 	}
 	for _, kv := range c.args {
 		flags = append(flags, "--arg", kv[0], kv[1])
@@ -263,6 +289,9 @@ func (*hcli) Run(rc *core.RunCtx) *core.RunResult {
 		c.inputs = append(c.inputs, in)
 	}
 	c.prog = cliProgs[t.Intn(len(cliProgs))]
+	if t.Intn(5) == 0 {
+		c.prog = cliProgs[6] // raises on some inputs only: the status must remember it
+	}
 	c.nullIn = t.Intn(5) == 0
 	c.raw = t.Intn(4) == 0
 	c.join = t.Intn(6) == 0
@@ -271,6 +300,8 @@ func (*hcli) Run(rc *core.RunCtx) *core.RunResult {
 	c.rawInput = t.Intn(8) == 0
 	c.raw0 = t.Intn(10) == 0
 	c.decode = []string{"", "", "", "probe", "json"}[t.Intn(5)]
+	c.decodeInGroup = t.Intn(3) == 0
+	c.decodeEq = t.Intn(2) == 0
 	c.ddash = t.Intn(5) == 0
 	c.combine = t.Intn(2) == 0
 	c.mono = t.Intn(6) == 0
